@@ -1,0 +1,9 @@
+//go:build !verif
+
+package tor
+
+import "github.com/jech/storrent/hash"
+
+// verifAnnounce is an observation point of the verification harness; it does
+// nothing unless storrent is built with the tag "verif".
+func verifAnnounce(h hash.Hash, ipv6 bool, port uint16) {}
